@@ -2,6 +2,7 @@
 package c05
 
 import (
+	"bytes"
 	"fmt"
 	"log/slog"
 	"regexp"
@@ -218,6 +219,32 @@ func check(c Case, o *stats.Obs) error {
 		if !containsInOrder(f.text, wantNums) {
 			o.Key = "display"
 			return fmt.Errorf("%s: display of type %d does not show %v (exact value x 0.0001, four decimals) in order; text:\n%s", name, typ, wantNums, f.text)
+		}
+	}
+	// The frame as a sub-slice of a larger receive buffer that holds the next frame right behind it: decoding
+	// must leave the whole buffer as it was, and the neighbour must decode afterwards.
+	{
+		next := enc.Base{Type: typ, WithH: b.WithH, StationID: 4095 - b.StationID, X: -b.X - 1, Y: 12345, Z: -1, Height: 65535 - b.Height}
+		nf := next.Frame()
+		big := make([]byte, 0, len(frame)+len(nf)+16)
+		big = append(append(big, frame...), nf...)
+		for i := 0; i < 16; i++ {
+			big = append(big, 0xEE)
+		}
+		orig := append([]byte{}, big...)
+		f1, err := decodeDirect(big[:len(frame)], typ, lv)
+		if err != nil || f1.x != b.X || f1.z != b.Z {
+			o.Key = "subslice-decode"
+			return fmt.Errorf("type %d message decoded from the front of a larger buffer: error %v, fields %+v (frame %x)", typ, err, f1, frame)
+		}
+		if !bytes.Equal(big, orig) {
+			o.Key = "decoder-wrote-to-buffer"
+			return fmt.Errorf("decoding a type %d message from a sub-slice changed the caller's buffer behind the frame: before %x after %x", typ, orig, big)
+		}
+		f2, err := decodeDirect(big[len(frame):len(frame)+len(nf)], typ, lv)
+		if err != nil || f2.x != next.X || f2.station != next.StationID {
+			o.Key = "neighbour-decode"
+			return fmt.Errorf("the frame that follows in the same buffer does not decode after its predecessor was decoded: error %v, fields %+v (frames %x %x)", err, f2, frame, nf)
 		}
 	}
 	edge := func(v int64) bool { return v < 0 || v == 0 || v == 1 || v == 1<<37-1 }
